@@ -2,7 +2,9 @@
 #ifndef VF_OPENSSL_STUBS_H
 #define VF_OPENSSL_STUBS_H
 #include <openssl/evp.h>
+#ifndef VO_IMAX
 #define VO_IMAX 67          /* capacity of a model BIGNUM in bytes (P-521 field + 1) */
+#endif
 #define VO_RAWMAX 8         /* opaque (non-EC) signature length bound on the sign side */
 struct bignum_st { unsigned char b[VO_IMAX]; unsigned len; int live; };   /* minimal big-endian bytes */
 extern int vo_key_type;                 /* EVP_PKEY_get_id() of the key object (symbolic) */
